@@ -13,7 +13,7 @@ PROP = "C02"
 META = {
 
  "engine": "S-scheduler",
- "text": "Coq theorems (Props/C02.v) about the executable model of Timeline/Track (Sched/Model.v), over ALL histories - any interleaving of ticks with schedule/update/mute/unmute/unschedule/clear/nudge, calls made from action callbacks, streams that raise at any index, device faults, both tolerance modes (induction over the history, no bound): for every weight on (note, channel), pending releases + note-offs sent = note-ons sent, hence #note-ons - #note-offs = #pending entries >= 0 for every key after every history (no stuck note, no double release); a stop-when-done timeline stops only with nothing pending; inactive/muted/zero-or-None amplitude or gate voices emit nothing and every other voice emits exactly one note-on and registers one release due duration*gate later; each release happens on the first tick at or after its due time (never early, never late, never in the onset's tick). Tied to /repo on every run by a correspondence check of random lifecycle histories executed on the real Timeline with a recording device and on the model inside Coq, plus an independent trace oracle (FIFO pairing per (note, channel), exact release tick, empty sounding set at StopIteration and at the end). Float layer: Props/C02Float.v proves that the note-off due test as the source writes it decides like the exact comparison at every resolution (also where tick times are decimal ties of round(., 8): 512 | ticks_per_beat); a stratum of 130 histories at resolutions 512..5120 with sounding lengths that are whole ticks written as inexact float products (non-dyadic duration, gate = (j/tpb)/duration) and onsets on many ticks is judged by the exact-fraction release tick and reports the tie defect repaired by 9bb39e5 if it returns.",
+ "text": "Coq theorems (Props/C02.v) about the executable model of Timeline/Track (Sched/Model.v), over ALL histories - any interleaving of ticks with schedule/update/mute/unmute/unschedule/clear/nudge, calls made from action callbacks, streams that raise at any index, device faults, both tolerance modes (induction over the history, no bound): for every weight on (note, channel), pending releases + note-offs sent = note-ons sent, hence #note-ons - #note-offs = #pending entries >= 0 for every key after every history (no stuck note, no double release); a stop-when-done timeline stops only with nothing pending; inactive/muted/zero-or-None amplitude or gate voices emit nothing and every other voice emits exactly one note-on and registers one release due duration*gate later; each release happens on the first tick at or after its due time (never early, never late, never in the onset's tick). Tied to /repo on every run by a correspondence check of random lifecycle histories executed on the real Timeline with a recording device and on the model inside Coq, plus an independent trace oracle (FIFO pairing per (note, channel), exact release tick, empty sounding set at StopIteration and at the end). Float layer: Props/C02Float.v proves that the note-off due test as the source writes it decides like the exact comparison at every resolution (also where tick times are decimal ties of round(., 8): 512 | ticks_per_beat); a stratum of 130 histories at resolutions 512..5120 with sounding lengths that are whole ticks written as inexact float products (non-dyadic duration, gate = (j/tpb)/duration) and onsets on many ticks is judged by the exact-fraction release tick and reports the tie defect repaired by 9bb39e5 if it returns. Several output devices (Sched/Devices.v, Props/C02Devices.v: a track on device d and channel c is the model's track on the tagged channel c + 16 d; C02_device_conservation, C02_device_pending_is_sounding: the pairing holds PER DEVICE over all histories): 140 histories with 2-3 recording devices (tracks on different devices, named tracks re-scheduled with another output_device while a note sounds, updates, unschedule/clear) and 120 histories that blank a running track (update(None), update({}), schedule({}, name=existing)) mid-note and later give it events again are judged per device by the same oracle and compared with the model.",
  "note": "Trusted: Coq kernel+VM; the Python harness. Modelled, not verified: float arithmetic of isobar (exact integer units in the model); events are taken already resolved (C03 covers resolution); a scalar amplitude of None (TypeError in isobar) and callbacks that unschedule tracks from inside a tick are outside the generated domain. On-time release is proved on the track's clock per scheduler cycle; that track and timeline clocks run in step is validated by the correspondence, not proved.",
 }
 
@@ -134,6 +134,129 @@ def gen_tie_release(rng):
     return {"tpb": tpb, "config": {"stop_when_done": False, "ignore": False}, "callbacks": [], "ops": ops, "stratum": "tie-release"}, pit
 
 
+# ---- several output devices; updates that blank a running track ---------------------------------------------------------
+DEV_OPTS = {"faults": False, "callbacks": False, "controls": True, "silent": True, "cyclic_share": 0.6,
+            "gates": [(1, 4), (1, 2), (1, 1), (3, 2), (2, 1), (2, 1), (4, 1), (8, 1)]}
+
+
+def gen_devices(rng):
+    """A timeline with 2-3 output devices.  Channel c + 16 * d of the scenario = MIDI channel c on device d (sched_impl.py), so
+    the observation, the oracle's (note, channel) keys and the model's calls are all PER DEVICE.  Tracks on different devices
+    (the same MIDI channel on several of them), named tracks re-scheduled by name with another output_device while a note
+    sounds (immediately or quantized; the unchanged library leaves the track on its device), updates, unschedule / clear
+    with notes pending.  Returns (scenario, Pitches)."""
+    tpb = rng.choice([1, 7, 10, 24, 96, 480])
+    tick = F(1, tpb)
+    K = rng.choice([2, 2, 3])
+    pit = G.Pitches()
+    cfg = {"devices": K, "stop_when_done": False, "ignore": rng.random() < 0.5}
+    ops, op_device = [], {}
+    created, dev_of_track, named = 0, {}, {}          # named: name -> track index, for tracks still on the timeline
+    midi = rng.randrange(16)
+
+    def stream_for(d):
+        c = (midi if rng.random() < 0.6 else rng.randrange(16)) + 16 * d
+        return G.lifecycle_stream(rng, tpb, pit, c, DEV_OPTS, 0)
+
+    def qd():
+        return rng.choice([None, F(0), F(0), F(1), F(1, 2), F(1, 4)]), rng.choice([None, F(0), F(0), F(0), F(1, 4), tick])
+
+    def schedule(name=None, dev=None):
+        nonlocal created
+        if name is not None and name in named:                       # replace: the existing track gets the new stream
+            t = named[name]
+            d_new = dev if dev is not None else rng.randrange(K)
+            q, d = qd()
+            ops.append(G.sched_op(stream_for(dev_of_track[t]), q, d, None, False, name, True))
+            op_device[str(len(ops) - 1)] = d_new
+            return
+        d0 = rng.randrange(K) if dev is None else dev
+        q, d = qd()
+        rwd = False if name is not None else rng.random() < 0.7
+        ops.append(G.sched_op(stream_for(d0), q, d, None, rwd, name, True))
+        op_device[str(len(ops) - 1)] = d0
+        dev_of_track[created] = d0
+        if name is not None:
+            named[name] = created
+        created += 1
+
+    for i in range(rng.randint(2, 3)):
+        schedule(name=i if rng.random() < 0.75 else None)
+    used = 0
+    for _ in range(rng.randint(3, 7)):
+        n = min(500 - used, rng.choice([1, 2, 3, tpb // 2 + 1, tpb, tpb + 1, 2 * tpb, rng.randint(1, 3 * tpb)]))
+        if n <= 0:
+            break
+        ops.append(["tick", n]); used += n
+        r = rng.random()
+        t = rng.randrange(created)
+        if r < 0.45 and named:
+            name = rng.choice(sorted(named))
+            schedule(name=name, dev=rng.choice([d for d in range(K) if d != dev_of_track[named[name]]]))
+        elif r < 0.6:
+            q, d = qd()
+            ops.append(["update", t, stream_for(dev_of_track[t]), q, d, None])
+        elif r < 0.7:
+            ops.append(["unschedule", t])
+            named = {k: v for k, v in named.items() if v != t}
+        elif r < 0.75:
+            ops.append(["clear"]); named = {}
+        elif r < 0.85:
+            ops.append([rng.choice(["mute", "unmute"]), t])
+        else:
+            schedule(name=rng.choice([None, 0, 1, 2]))
+    longest = max([v["glen"] for v in pit.voices.values() if v["glen"] is not None] + [F(1)])
+    ops.append(["tick", min(int(longest / tick) + 3 * tpb + 5, 6000)])
+    return {"tpb": tpb, "config": cfg, "callbacks": [], "ops": ops, "op_device": op_device, "stratum": "devices"}, pit
+
+
+def gen_blank(rng):
+    """Updates that leave a RUNNING track without events - update(None), update({}), schedule(None / {}, name=existing) - while a
+    note sounds, then ticks, then (often) an update that gives it events again; also the documented use: a track scheduled
+    empty and filled later.  On the unchanged library the blanked track raises InvalidEventException at its next event; in the
+    tolerant mode it is removed and its pending notes are released by the timeline on time.  Returns (scenario, Pitches)."""
+    tpb = rng.choice([1, 7, 10, 24, 96, 480])
+    tick = F(1, tpb)
+    pit = G.Pitches()
+    cfg = {"stop_when_done": False, "ignore": rng.random() < 0.85}
+    ops = []
+    blank = lambda: G.stream([{"k": "raise_ctor"}], True, rng.choice(["blank_none", "blank_dict"]))
+    qd = lambda: (rng.choice([None, F(0), F(0), F(0), F(1), F(1, 2)]), rng.choice([None, F(0), F(0), F(0), F(1, 4), tick]))
+    ntr = rng.randint(1, 3)
+    names = {}
+    for i in range(ntr):
+        name = i if rng.random() < 0.5 else None
+        if rng.random() < 0.15:
+            ops.append(G.sched_op(blank(), F(0), F(0), None, False, name, True))        # scheduled empty, filled later
+        else:
+            q, d = qd()
+            ops.append(G.sched_op(G.lifecycle_stream(rng, tpb, pit, i, DEV_OPTS, 0), q, d, None, rng.random() < 0.5, name, True))
+        if name is not None:
+            names[name] = i
+    used = 0
+    for step in range(rng.randint(2, 6)):
+        n = min(400 - used, rng.choice([1, 2, 3, tpb // 2 + 1, tpb, tpb + 1, 2 * tpb, rng.randint(1, 2 * tpb)]))
+        if n <= 0:
+            break
+        ops.append(["tick", n]); used += n
+        t = rng.randrange(ntr)
+        r = rng.random()
+        q, d = qd()
+        if r < 0.5:
+            if names and rng.random() < 0.3:
+                name = rng.choice(sorted(names))
+                ops.append(G.sched_op(blank(), q, d, None, False, name, True))
+            else:
+                ops.append(["update", t, blank(), q, d, None])
+        elif r < 0.9:
+            ops.append(["update", t, G.lifecycle_stream(rng, tpb, pit, t, DEV_OPTS, 0), q, d, None])
+        else:
+            ops.append([rng.choice(["mute", "unmute", "unschedule"]), t])
+    longest = max([v["glen"] for v in pit.voices.values() if v["glen"] is not None] + [F(1)])
+    ops.append(["tick", min(int(longest / tick) + 3 * tpb + 5, 6000)])
+    return {"tpb": tpb, "config": cfg, "callbacks": [], "ops": ops, "stratum": "blank"}, pit
+
+
 def check(run):
     rng = run.rng
     n = 2000 if run.tier == "quick" else 20000
@@ -144,13 +267,28 @@ def check(run):
     for _ in range(130 if run.tier == "quick" else 2600):
         sc, pit = gen_tie_release(rng)
         scs.append(sc); pits.append(pit)
+    for _ in range(140 if run.tier == "quick" else 3000):
+        sc, pit = gen_devices(rng)
+        scs.append(sc); pits.append(pit)
+    for _ in range(120 if run.tier == "quick" else 3000):
+        sc, pit = gen_blank(rng)
+        scs.append(sc); pits.append(pit)
     fin = [G.finalize(sc) for sc in scs]
     results = S.run_impl(run, fin, shards=14)
     flagged = set()
     for i, (sc, pit, fsc, r) in enumerate(zip(scs, pits, fin, results)):
         run.count()
         run.dist("tpb.%d" % sc["tpb"])
-        if sc.get("stratum"):
+        if sc.get("stratum") in ("devices", "blank"):
+            run.dist("stratum." + sc["stratum"])
+            for pos, o in enumerate(sc["ops"]):
+                if o[0] in ("schedule", "update") and o[1 if o[0] == "schedule" else 2]["form"].startswith("blank"):
+                    run.dist("blank." + o[0] + "." + o[1 if o[0] == "schedule" else 2]["form"])
+                if sc["stratum"] == "devices" and o[0] == "schedule" and o[6] is not None:
+                    run.dist("devices.named-schedule")
+            if sc["stratum"] == "devices":
+                run.dist("devices.%d" % sc["config"]["devices"])
+        elif sc.get("stratum"):
             run.dist("stratum." + sc["stratum"])
             if fsc["U"] * 2 > 10 ** 8:
                 raise CheckError("tie stratum: U = %d is too large for the exactness lemmas" % fsc["U"])
